@@ -7,6 +7,7 @@ import (
 	"runtime"
 
 	"github.com/alttpo/snes/emulator"
+	"github.com/alttpo/snes/emulator/bus"
 	"github.com/alttpo/snes/emulator/cpualt"
 	"github.com/alttpo/snes/emulator/memory"
 
@@ -16,6 +17,37 @@ import (
 )
 
 func init() { reg("C02", C02); reg("C08", C08) }
+
+// forwardingPort: like the console's work-RAM data port - every access is forwarded through the bus to
+// work RAM at an auto-incrementing pointer.
+type forwardingPort struct {
+	b   *bus.Bus
+	ptr uint32
+}
+
+func (p *forwardingPort) Read(a uint32) byte {
+	v := p.b.EaRead(0x7E0000 + p.ptr&0x1FFFF)
+	p.ptr++
+	return v
+}
+func (p *forwardingPort) Write(a uint32, v byte) { p.b.EaWrite(0x7E0000+p.ptr&0x1FFFF, v); p.ptr++ }
+func (p *forwardingPort) Shutdown()              {}
+func (p *forwardingPort) Size() uint32           { return 16 }
+func (p *forwardingPort) Clear()                 {}
+func (p *forwardingPort) Dump(uint32) []byte     { return nil }
+
+// forwardingMirror forwards its window to another range of the same bus.
+type forwardingMirror struct {
+	b  *bus.Bus
+	to uint32
+}
+
+func (m *forwardingMirror) Read(a uint32) byte     { return m.b.EaRead(m.to + a&0xFFF) }
+func (m *forwardingMirror) Write(a uint32, v byte) { m.b.EaWrite(m.to+a&0xFFF, v) }
+func (m *forwardingMirror) Shutdown()              {}
+func (m *forwardingMirror) Size() uint32           { return 0x1000 }
+func (m *forwardingMirror) Clear()                 {}
+func (m *forwardingMirror) Dump(uint32) []byte     { return nil }
 
 // diffWorker runs the two interpreters side by side (no model).
 type diffWorker struct {
@@ -710,7 +742,51 @@ func C08(r *vf.Run) {
 			r.CellN(fmt.Sprintf("console-devices:bank%02x:alt=%v", bank, useAlt), n)
 		})
 	}
+	if r.Phase("re-entrant-devices") {
+		// devices that go back through the bus they are attached to while serving an access (a data port
+		// that forwards to work RAM through an auto-incrementing pointer, a mirror that forwards to the
+		// mirrored range): the instruction still completes. A stall supervisor looks at the goroutine stacks
+		// if nothing completes for a minute (the verdict comes from the stacks, not from the clock).
+		superviseStalls(r)
+		sys := new(emulator.System)
+		if err := sys.CreateEmulator(); err != nil {
+			r.Fail("create-emulator", err.Error(), nil)
+		} else {
+			port := &forwardingPort{b: &sys.Bus}
+			if err := sys.Bus.Attach(port, "wram-port", 0x002180, 0x00218F); err != nil {
+				panic(err)
+			}
+			mirror := &forwardingMirror{b: &sys.Bus, to: 0x7E4000}
+			if err := sys.Bus.Attach(mirror, "mirror", 0x003000, 0x003FFF); err != nil {
+				panic(err)
+			}
+			var n int64
+			for _, at := range []uint32{0x2180, 0x2181, 0x218F, 0x3000, 0x3FFE, 0x3FFF} {
+				for _, op := range []byte{0xAD, 0x8D, 0xEE, 0x0E, 0x9C, 0x2C} {
+					for m8 := 0; m8 < 2; m8++ {
+						pc := uint32(0x7E1000)
+						sys.Bus.EaWrite(pc, op)
+						sys.Bus.EaWrite(pc+1, byte(at))
+						sys.Bus.EaWrite(pc+2, byte(at>>8))
+						c := &sys.CPU
+						c.RK, c.PC, c.RDBR = 0x7E, 0x1000, 0x00
+						c.E, c.M, c.X = 0, byte(m8), byte(m8)
+						c.RA, c.RAl, c.RAh = 0x1234, 0x34, 0x12
+						c.Stopped = false
+						if pan := vf.Try(func() { c.Step() }); pan != nil {
+							r.Fail("re-entrant-device-fails", fmt.Sprintf("opcode %02x on $00:%04x (a device that forwards through the bus), %d-bit: Step failed: %v", op, at, 16-8*m8, pan), nil)
+						}
+						c18progress.Add(1)
+						n++
+					}
+				}
+			}
+			r.Eval(n)
+			r.CellN("re-entrant-devices", n)
+		}
+	}
 	if r.OnlyPhase == "" {
+		r.Require("re-entrant-devices")
 		r.Require("long:jsr-self-recursion")
 		r.Require("long:jsr-rts-deep-then-unwind")
 		r.RequireSub("console-devices:bank00:alt=false")
